@@ -1,8 +1,10 @@
 """C15 -- option orders fill best-first at displayed sizes; cash, fee, position exact."""
 from decimal import Decimal
 
+import pandas as pd
+
 from ..harness import Scenario
-from ..models.deribit import DeribitWorld, SHADOWS, sym_book, FEE_STEP, _dec, _flt
+from ..models.deribit import NOW, DeribitWorld, SHADOWS, sym_book, FEE_STEP, _dec, _flt
 from ..symx import ite, sand, sor, snot, smin, smax, sabs, is_sym
 
 D = Decimal
@@ -52,6 +54,15 @@ def order(ctx):
     cash_now = cash
     held_now = hold if hold is not None else D(0)
     for k in range(n_orders):
+        if k == 1 and p.get("new_hour"):
+            # the next hourly bar brings a fresh book (other sizes): the second order sees THAT book, not what the first one left of
+            # the old one; cash and holding carry over
+            ins2 = sym_book(ctx, name, nl if side == "buy" else 2, nl if side == "sell" else 2, mark=mark, step=step, prefix="h2_")
+            w.set_row([ins2], NOW + pd.Timedelta("1h"))
+            book0 = w.book(name, side_key)
+            other0 = w.book(name, "bids" if side == "buy" else "asks")
+            filled_total = {D(str(px)): 0 for px, _ in book0}
+            ctx.check(f"{side}[{mode}]: a new hourly bar leaves cash and holding where they were", sand(m.balance == cash_now, (m.positions[name].amount == held_now) if name in m.positions else held_now == 0))
         n = _dec(ctx.int_(f"n{k}", 1, 5000))
         kw = {}
         book = w.book(name, side_key)
@@ -197,5 +208,7 @@ def scenarios(tier):
         out.append(Scenario(f"{side}/market/l2/held_after_earlier_sale", order, params=dict(side=side, mode="market", levels=2, hold=True, sold_before=True), shadows=SHADOWS, entry=(f"DeribitOptionMarket.{side}", "Order.get_average_price"), nlsat=False, max_paths=3000, time_budget_s=300))
         out.append(Scenario(f"{side}/market/tight_book/two_orders", order, params=dict(side=side, mode="market", levels=3 if tier != "quick" else 2, hold=True, orders=2, book="tight"), shadows=SHADOWS, entry=(f"DeribitOptionMarket.{side}", "get_new_order_list"), nlsat=False, max_paths=4000, time_budget_s=400))
         out.append(Scenario(f"{side}/market/cheap_book", order, params=dict(side=side, mode="market", levels=3 if tier != "quick" else 2, hold=True, orders=2 if tier != "quick" else 1, book="cheap"), shadows=SHADOWS, entry=(f"DeribitOptionMarket.{side}", "get_trade_fee"), nlsat=False, max_paths=4000, time_budget_s=400))
+    for side in ("buy", "sell"):
+        out.append(Scenario(f"{side}/market/l2/second_order_in_the_next_hourly_bar", order, params=dict(side=side, mode="market", levels=2, hold=True, orders=2, new_hour=True), shadows=SHADOWS, entry=(f"DeribitOptionMarket.{side}", "DeribitOptionMarket.set_market_status"), nlsat=False, max_paths=3000, time_budget_s=400, witness_cap=16))
     out.append(Scenario("buy/market/l2/btc", order, params=dict(side="buy", mode="market", levels=2, hold=False, token="btc"), shadows=SHADOWS, entry=("DeribitOptionMarket.buy",), nlsat=False))
     return out
